@@ -28,6 +28,8 @@ func stackBoard(c *Cfg, board []string) {
 	}
 }
 
+const engineWorkloadNote = " Workload common to the engine checks: one hand in six is a hostile history (the state is reloaded into the same game object, operations that are not the expected one are tried and must be refused, rounds of read-only queries must leave the state byte-identical), one hand in eight runs on a game object that already played part of another hand (ApplyOptions or LoadState of the new hand), one configuration in fourteen uses amounts around 2^31, 2^53 and 2^55 incl. forced bets a float64 cannot hold, BurnCount 0-3 and the order of a seat's positions vary, hole-card rules 2/0, 4/2, 2/2, 3/0, 3/2, 5/2."
+
 func sampleHand(h *Hand) interface{} {
 	tr := h.Trace
 	if len(tr) > 40 {
@@ -174,7 +176,7 @@ func checkC01(ctx *RunCtx) int {
 	runHands(ctx, rep, 1, ctx.N(6000, 400000), GenOpts{Hostile: true}, commonScenarios(), boardPlaysTweak, func() Monitor { return &C01Mon{} })
 	return finish(ctx, rep, &CheckSpec{
 		Prop: "C01", Level: "exploration", EvalCounter: "hands", NonTrivSet: "nontrivial",
-		Rule:        "hands of the real engine from generated configurations (2-10 seats, boundary/tiny/medium/deep bankrolls, ante, blinds incl. dealer-blind-only / big-blind-only / dead small blind, no-/pot-limit, 52/36 cards, 2 or 4 hole cards), pinned random decks, mixed strategies with hostile bet/raise amounts; the chip ledger is asserted on the state after every operation, the pot sum at every publication point, the settlement ledger at close. Non-trivial = distinct (configuration, operation trace) with >= 2 published pots at close or a forced bet capped by the stack",
+		Rule:        "hands of the real engine from generated configurations (2-10 seats, boundary/tiny/medium/deep bankrolls, ante, blinds incl. dealer-blind-only / big-blind-only / dead small blind, no-/pot-limit, 52/36 cards, 2 or 4 hole cards), pinned random decks, mixed strategies with hostile bet/raise amounts; the chip ledger is asserted on the state after every operation, the pot sum at every publication point, the settlement ledger at close. Non-trivial = distinct (configuration, operation trace) with >= 2 published pots at close or a forced bet capped by the stack" + engineWorkloadNote + "",
 		Required:    []string{"hands_with_side_pots", "hands_with_short_forced_bet", "publication_points", "settlements_checked"},
 		Assumptions: []string{"pots are stale by design between publications (the engine republishes only after antes, at round close and at settlement); the pot-sum is asserted only there"},
 	})
@@ -185,7 +187,7 @@ func checkC04(ctx *RunCtx) int {
 	runHands(ctx, rep, 4, ctx.N(2000, 70000), GenOpts{Hostile: true}, commonScenarios(), nil, func() Monitor { return newC04Mon(1) })
 	return finish(ctx, rep, &CheckSpec{
 		Prop: "C04", Level: "exploration", EvalCounter: "refusal_probes", NonTrivSet: "nontrivial",
-		Rule:        "at every wait point of every generated hand: (A) exactly the seat the turn-order shadow expects is offered actions; (B) on the live game every operation that is not the expected one is called - table operations in the wrong phase, every action on every seat that was not offered it, per-seat forced bets in the wrong phase - and must return an error and leave the JSON state identical (updated_at masked). evaluations = refused calls made; non-trivial = distinct wait points probed",
+		Rule:        "at every wait point of every generated hand: (A) exactly the seat the turn-order shadow expects is offered actions; (B) on the live game every operation that is not the expected one is called - table operations in the wrong phase, every action on every seat that was not offered it, per-seat forced bets in the wrong phase - and must return an error and leave the JSON state identical (updated_at masked). evaluations = refused calls made; non-trivial = distinct wait points probed" + engineWorkloadNote + "",
 		Required:    []string{"probes_table_op_wrong_phase", "probes_other_seat", "probes_current_seat_not_offered", "probes_action_outside_round", "first_actor_preflop_heads_up", "first_actor_postflop", "pass_only_seats"},
 		Assumptions: []string{"Start() re-initialises a hand by design and is not probed mid-hand; the internal steps exposed on the Game interface (Deal, Burn, EmitEvent, ...) are not operations a driver may call"},
 	})
@@ -196,7 +198,7 @@ func checkC05(ctx *RunCtx) int {
 	runHands(ctx, rep, 5, ctx.N(6000, 300000), GenOpts{Hostile: false}, commonScenarios(), nil, func() Monitor { return &C05Mon{} })
 	return finish(ctx, rep, &CheckSpec{
 		Prop: "C05", Level: "exploration", EvalCounter: "hands", NonTrivSet: "nontrivial",
-		Rule:     "generated hands with raise / short all-in / fold mixes; a per-street shadow (turn step per seat, step of last wager increase, turns since last increase or all-in) is checked at every closure (matched, had a turn), after every action (one lap bound, immediate closure when one player is left) and on every Next() (early end without dealing, run-out without betting, five-card board at showdown). Non-trivial = distinct hands whose closed rounds followed both a raise and a non-raising all-in",
+		Rule:     "generated hands with raise / short all-in / fold mixes; a per-street shadow (turn step per seat, step of last wager increase, turns since last increase or all-in) is checked at every closure (matched, had a turn), after every action (one lap bound, immediate closure when one player is left) and on every Next() (early end without dealing, run-out without betting, five-card board at showdown). Non-trivial = distinct hands whose closed rounds followed both a raise and a non-raising all-in" + engineWorkloadNote + "",
 		Required: []string{"rounds_closed_checked", "early_endings", "runout_streets", "showdowns", "closed_by_last_fold", "runout_showdowns"},
 	})
 }
@@ -320,7 +322,7 @@ func checkC06(ctx *RunCtx) int {
 	return finish(ctx, rep, &CheckSpec{
 		Extra: extra,
 		Prop:  "C06", Level: "exploration", EvalCounter: "hands", NonTrivSet: "nontrivial",
-		Rule:        "invalid-start grid (0/1 players, no dealer, zero/negative bankroll on each seat, empty/nil deck, for 2-9 seats) plus generated hands incl. never-stop-raising strategies; after every accepted operation the state must be one of the five wait events or GameClosed, follow the linear automaton ready->[ante]->[blinds]->(ready->started->closed | closed) per street ->GameClosed, strictly decrease the variant (stage, chips behind + live players, lap budget), have a result iff closed; after close every operation on every seat must fail and change nothing. Termination is restated as bounded progress on observed transitions (no finite run decides 'every path is finite'). Non-trivial = distinct completed hands",
+		Rule:        "invalid-start grid (0/1 players, no dealer, zero/negative bankroll on each seat, empty/nil deck, for 2-9 seats) plus generated hands incl. never-stop-raising strategies; after every accepted operation the state must be one of the five wait events or GameClosed, follow the linear automaton ready->[ante]->[blinds]->(ready->started->closed | closed) per street ->GameClosed, strictly decrease the variant (stage, chips behind + live players, lap budget), have a result iff closed; after close every operation on every seat must fail and change nothing. Termination is restated as bounded progress on observed transitions (no finite run decides 'every path is finite'). Non-trivial = distinct completed hands. Independent hands are also played on eight goroutines in a -race build (no race report, no panic)."+engineWorkloadNote,
 		Required:    []string{"transitions_checked", "after_close_probes", "start_refusals_checked", "start_accepts_checked", "hands_closed"},
 		Assumptions: []string{"liveness restated as bounded progress: the variant is checked on every observed transition; it is not a proof over unobserved states", "decks have at least hole*n+8 cards (the engine does not validate deck size beyond non-empty; configuration precondition)"},
 	})
@@ -433,7 +435,7 @@ func checkC07(ctx *RunCtx) int {
 	}
 	return finish(ctx, rep, &CheckSpec{
 		Prop: "C07", Level: "fault_enumeration", EvalCounter: "cut_points", NonTrivSet: "nontrivial",
-		Rule:        "fault = everything that is not in the JSON is lost, injected at every wait point of every generated hand: before each operation the game is rebuilt from the JSON of that wait point (F1), the stateless table.NativeBackend is fed its own previous output (F2, input must stay untouched) and, for a subset of hands, a fresh OS process per operation carries the state (F3); all must agree with the in-memory game (error-ness and JSON, updated_at masked) after every operation, refused hostile amounts included. Each hand is replayed from scratch and must reproduce the same JSON trace; 16 goroutines share one backend under the Go race detector. evaluations = cut points (one per operation); non-trivial = distinct (hand, cut index)",
+		Rule:        "fault = everything that is not in the JSON is lost, injected at every wait point of every generated hand: before each operation the game is rebuilt from the JSON of that wait point (F1), the stateless table.NativeBackend is fed its own previous output (F2, input must stay untouched) and, for a subset of hands, a fresh OS process per operation carries the state (F3); all must agree with the in-memory game (error-ness and JSON, updated_at masked) after every operation, refused hostile amounts included. Each hand is replayed from scratch and must reproduce the same JSON trace; 16 goroutines share one backend under the Go race detector. evaluations = cut points (one per operation); non-trivial = distinct (hand, cut index)" + engineWorkloadNote + "",
 		Required:    []string{"cut_points", "backend_calls", "deterministic_replays", "fresh_process_operations", "create_game_checked", "race_detector_runs", "cut_at_RoundStarted", "cut_at_RoundClosed", "cut_at_ReadyRequested", "cut_at_BlindsRequested", "cut_at_AnteRequested"},
 		Extra:       extra,
 		Assumptions: []string{"CreateGame's own shuffle cannot be pinned; only its wait point and deck multiset are checked", "the race detector reports only races that occur in the executed schedule"},
@@ -456,7 +458,7 @@ func checkC11(ctx *RunCtx) int {
 	runHands(ctx, rep, 11, ctx.N(6000, 300000), GenOpts{Hostile: false}, commonScenarios(), nil, func() Monitor { return &C11Mon{} })
 	return finish(ctx, rep, &CheckSpec{
 		Prop: "C11", Level: "exploration", EvalCounter: "offers_checked", NonTrivSet: "nontrivial",
-		Rule:        "at every RoundStarted wait point the offered list of the seat to act is compared with the situation table (facing?, holds vs wager to match, vs wager+minimum raise, vs minimum bet, nobody wagered yet); after the chosen action the effect oracle checks other seats untouched, check/fold/pass move nothing, call reaches max(wager to match, big blind) capped at the stack and is level if chips remain, bet(x<stack) makes x the wager to match, all-in moves exactly the stack. Non-trivial = distinct (situation signs, offered list)",
+		Rule:        "at every RoundStarted wait point the offered list of the seat to act is compared with the situation table (facing?, holds vs wager to match, vs wager+minimum raise, vs minimum bet, nobody wagered yet); after the chosen action the effect oracle checks other seats untouched, check/fold/pass move nothing, call reaches max(wager to match, big blind) capped at the stack and is level if chips remain, bet(x<stack) makes x the wager to match, all-in moves exactly the stack. Non-trivial = distinct (situation signs, offered list)" + engineWorkloadNote + "",
 		Required:    []string{"effect_call", "effect_bet", "effect_raise", "effect_allin", "effect_fold", "effect_check", "effect_pass", "class_pass_only", "bets_below_stack", "calls_completed_to_bb"},
 		Assumptions: []string{"'holds' is read as the round-start stack (initial_stack_size): call/raise levels are totals for the round", "a call completes to one big blind whenever the standing wager is below it, on every street (repo tests Test_Actions_CallTo1BBInPreflop and Test_Actions_EmptySB_Basic pin this); the oracle fixes the amount exactly under that reading"},
 	})
@@ -467,7 +469,7 @@ func checkC12(ctx *RunCtx) int {
 	runHands(ctx, rep, 12, ctx.N(6000, 300000), GenOpts{Hostile: true}, commonScenarios(), nil, func() Monitor { return &C12Mon{} })
 	return finish(ctx, rep, &CheckSpec{
 		Prop: "C12", Level: "exploration", EvalCounter: "raise_requests", NonTrivSet: "nontrivial",
-		Rule:        "every Bet(x)/Raise(x) of generated hands with amounts from {boundary values around minimum raise / stack / wager, 0, -1, -50, -2^40, 2^50, MaxInt64, MinInt64}; a shadow 'size of the previous bet or raise' (blinds -> BB, bet -> chips actually wagered, exact raise -> increment, all-in -> increment if not smaller) decides: legal raise below the stack carried out exactly, undersized never carried out with chips left, below the wager refused unchanged; every state: wager to match monotone within a street, nothing negative, stack <= bankroll. evaluations = raise requests; non-trivial = distinct (class, wager, minimum, stack, level)",
+		Rule:        "every Bet(x)/Raise(x) of generated hands with amounts from {boundary values around minimum raise / stack / wager, 0, -1, -50, -2^40, 2^50, MaxInt64, MinInt64}; a shadow 'size of the previous bet or raise' (blinds -> BB, bet -> chips actually wagered, exact raise -> increment, all-in -> increment if not smaller) decides: legal raise below the stack carried out exactly, undersized never carried out with chips left, below the wager refused unchanged; every state: wager to match monotone within a street, nothing negative, stack <= bankroll. evaluations = raise requests; non-trivial = distinct (class, wager, minimum, stack, level)" + engineWorkloadNote + "",
 		Required:    []string{"raise_exact_minimum", "raise_below_minimum", "raise_above_minimum", "raise_at_or_above_stack", "raise_below_wager", "raise_zero", "raise_negative", "raise_huge", "bet_negative", "bet_zero", "bet_huge", "bet_at_or_above_stack", "bet_below_minimum", "exact_raises_checked", "raises_turned_allin"},
 		Assumptions: []string{"Raise(L) with L equal to the wager to match is handed to call by the engine and is exempt from the raise clauses", "the exactness clause is checked for no-limit only (as stated); pot-limit hands get monotonicity and non-negativity"},
 	})
@@ -552,7 +554,7 @@ func checkC13(ctx *RunCtx) int {
 	runHands(ctx, rep, 13, ctx.N(4000, 200000), GenOpts{}, grid, nil, func() Monitor { return &C13Mon{} })
 	return finish(ctx, rep, &CheckSpec{
 		Prop: "C13", Level: "exploration", EvalCounter: "blind_phases_checked", NonTrivSet: "nontrivial",
-		Rule:        "systematic grid (2-9 seats x button positions x 14 ante/blind settings incl. big-blind-only, dealer-blind-only, dead small blind, ante above blinds x one forced seat at a time with bankroll at -1/0/+1 of ante, blind, ante+blind, and 1) plus random configurations; the oracle is evaluated on the first state of the hand that lies after the blind phase (so a skipped blind phase is seen), and right after PayAnte. Non-trivial = distinct (seats, button, forced amounts, bankroll vector)",
+		Rule:        "systematic grid (2-9 seats x button positions x 14 ante/blind settings incl. big-blind-only, dealer-blind-only, dead small blind, ante above blinds x one forced seat at a time with bankroll at -1/0/+1 of ante, blind, ante+blind, and 1) plus random configurations; the oracle is evaluated on the first state of the hand that lies after the blind phase (so a skipped blind phase is seen), and right after PayAnte. Non-trivial = distinct (seats, button, forced amounts, bankroll vector)" + engineWorkloadNote + "",
 		Required:    []string{"class_stack_below_ante", "class_stack_equals_ante", "class_short_blind", "class_exact_blind", "class_blind_plus_one", "class_short_dealer_blind", "class_bb_only", "class_dealer_blind_only", "class_dead_sb", "class_heads_up"},
 		Assumptions: []string{"a seat holding several blind positions posts one blind, the first positive of big blind, small blind, dealer blind (heads-up dealer+sb pays the small blind)"},
 	})
@@ -601,7 +603,7 @@ func checkC14(ctx *RunCtx) int {
 	runHands(ctx, rep, 14, ctx.N(6000, 300000), GenOpts{}, commonScenarios(), nil, func() Monitor { return &C14Mon{} })
 	return finish(ctx, rep, &CheckSpec{
 		Prop: "C14", Level: "exploration", EvalCounter: "hands", NonTrivSet: "nontrivial",
-		Rule:        "deck ledger after every operation of generated hands on a pinned deck: hole+board+burned = consumed top of the deck as multisets, deck itself unchanged, hole-card count, (board,burned) sizes per street, board grows by appending, hole cards frozen; the deck after Start() and ShuffleCards on random decks (duplicates, length 0/1) keep the multiset. Non-trivial = distinct (consumed deck prefix, seats, hole cards)",
+		Rule:        "deck ledger after every operation of generated hands on a pinned deck: hole+board+burned = consumed top of the deck as multisets, deck itself unchanged, hole-card count, (board,burned) sizes per street, board grows by appending, hole cards frozen; the deck after Start() and ShuffleCards on random decks (duplicates, length 0/1) keep the multiset. Non-trivial = distinct (consumed deck prefix, seats, hole cards)" + engineWorkloadNote + "",
 		Required:    []string{"hands_early_end", "hands_allin_runout", "hands_full_showdown", "shuffles_checked", "direct_shuffles"},
 		Assumptions: []string{"Meta.BurnCount is ignored by the engine; one card is always burned, which is what the property states"},
 	})
@@ -613,7 +615,7 @@ func checkC15(ctx *RunCtx) int {
 	runHands(ctx, rep, 15, ctx.N(1000, 40000), GenOpts{ShowdownBias: true}, commonScenarios(), nil, func() Monitor { return &C15Mon{every: every} })
 	return finish(ctx, rep, &CheckSpec{
 		Prop: "C15", Level: "exploration", EvalCounter: "oracle_evaluations", NonTrivSet: "nontrivial",
-		Rule:     "for every reachable state of generated hands and every viewer (each seat and the observer), on a JSON clone: the whole JSON text of the view is scanned for card tokens and each must be in board + own hole cards (+ hole cards of non-folded seats once closed); other seats' evaluation absent before close and for folded seats after; the view must equal the state with exactly the stated redaction applied (nothing public changed, own cards kept). evaluations = views checked; non-trivial = distinct states viewed",
+		Rule:     "for every reachable state of generated hands and every viewer (each seat and the observer), on a JSON clone: the whole JSON text of the view is scanned for card tokens and each must be in board + own hole cards (+ hole cards of non-folded seats once closed); other seats' evaluation absent before close and for folded seats after; the view must equal the state with exactly the stated redaction applied (nothing public changed, own cards kept). evaluations = views checked; non-trivial = distinct states viewed" + engineWorkloadNote + "",
 		Required: []string{"class_closed_showdown_with_folds", "class_closed_by_fold", "class_open_with_burned_cards", "states_viewed"},
 	})
 }
@@ -631,7 +633,7 @@ func checkC16(ctx *RunCtx) int {
 	runHands(ctx, rep, 16, ctx.N(3000, 100000), GenOpts{}, commonScenarios(), nil, func() Monitor { return &C16Mon{} })
 	return finish(ctx, rep, &CheckSpec{
 		Prop: "C16", Level: "exploration", EvalCounter: "oracle_evaluations", NonTrivSet: "nontrivial",
-		Rule:        "pot.LevelList fed contribution/fold vectors directly (small domain enumerated completely in thorough: n<=6, contributions in {0,1,2,3,5}, all fold flags; random n<=10 with zero/equal/large values, every vector inserted in a random order) and the pots the engine publishes after antes, at every RoundClosed and at GameClosed; compared with an independent partition: strictly increasing levels, per-band totals, per-pot amount, live seats listed iff they reached the level, strictly shrinking live sets, sum = all chips. Non-trivial = distinct (rank pattern of contributions x fold flags) with >= 2 pots",
+		Rule:        "pot.LevelList fed contribution/fold vectors directly (small domain enumerated completely in thorough: n<=6, contributions in {0,1,2,3,5}, all fold flags; random n<=10 with zero/equal/large values, every vector inserted in a random order) and the pots the engine publishes after antes, at every RoundClosed and at GameClosed; compared with an independent partition: strictly increasing levels, per-band totals, per-pot amount, live seats listed iff they reached the level, strictly shrinking live sets, sum = all chips. Non-trivial = distinct (rank pattern of contributions x fold flags) with >= 2 pots" + engineWorkloadNote + "",
 		Required:    []string{"multi_pot_vectors", "multi_pot_publications", "class_zero_contribution", "class_equal_contributions", "published_RoundClosed", "published_GameClosed", "published_AntePaid"},
 		Assumptions: []string{"the engine lists folded seats in Contributors with their whole contribution; 'eligible' is read as contributors minus folded and nothing is asserted about folded entries"},
 	})
@@ -723,7 +725,7 @@ func checkC02(ctx *RunCtx) int {
 	runHands(ctx, rep, 2, ctx.N(4000, 150000), GenOpts{ShowdownBias: true}, commonScenarios(), tweak, func() Monitor { return &C02Mon{} })
 	return finish(ctx, rep, &CheckSpec{
 		Prop: "C02", Level: "exploration", EvalCounter: "oracle_evaluations", NonTrivSet: "nontrivial",
-		Rule:        "(a) direct: contribution/fold/strength vectors given to pot.LevelList and settlement.Result (small domain enumerated: n<=4 over contributions {0,1,2,3,5} x folds x strengths {1,2,3}, n=5 with strengths {1,2} in thorough; random n<=10 incl. 5-7 seat vectors with many folded levels); (b) real play to showdown with caller/maniac strategies, antes, >=5 seats, decks stacked so that the board plays in 1/5 of the hands; expected winners come from an independent hand evaluator over the best admissible selection. Oracle: each player's gross collection lies between sum of floor and ceil shares of the pots they win, folded players collect nothing, tied winners of one pot are recorded with shares differing by <= 1, changes sum to zero. Non-trivial = distinct cases with >= 2 pots or a tie",
+		Rule:        "(a) direct: contribution/fold/strength vectors given to pot.LevelList and settlement.Result (small domain enumerated: n<=4 over contributions {0,1,2,3,5} x folds x strengths {1,2,3}, n=5 with strengths {1,2} in thorough; random n<=10 incl. 5-7 seat vectors with many folded levels); (b) real play to showdown with caller/maniac strategies, antes, >=5 seats, decks stacked so that the board plays in 1/5 of the hands; expected winners come from an independent hand evaluator over the best admissible selection. Oracle: each player's gross collection lies between sum of floor and ceil shares of the pots they win, folded players collect nothing, tied winners of one pot are recorded with shares differing by <= 1, changes sum to zero. Non-trivial = distinct cases with >= 2 pots or a tie" + engineWorkloadNote + "",
 		Required:    []string{"vectors_multi_pot_or_tie", "hands_multi_pot_or_tie", "hands_with_split_pot", "showdowns_checked", "scripted_hands"},
 		Assumptions: []string{"a layer with no live payer (only constructible by direct input) is not described by the property: only zero-sum and 'folded never collects' are asserted there", "which tied winner receives an odd chip is not fixed", "short-deck hands in which an A-6-7-8-9 selection is available to a live player are skipped (class left open by C03)"},
 	})
@@ -791,7 +793,7 @@ func checkC10(ctx *RunCtx) int {
 	}
 	return finish(ctx, rep, &CheckSpec{
 		Prop: "C10", Level: "exploration", EvalCounter: "oracle_evaluations", NonTrivSet: "nontrivial",
-		Rule:        "every seat on every street of generated hands (both decks, 2 hole cards / 4 with exactly 2 required) plus direct (hole, board) draws through the engine's own publication path, biased to reach rare categories; own enumeration of admissible selections with an independent evaluator: reported cards are an admissible 5-set of the player's own cards, nothing admissible ranks higher, reported type = category of those cards, reported power = the evaluator's score of those cards. Non-trivial = distinct (hole, board, rule) evaluated",
+		Rule:        "every seat on every street of generated hands (both decks, 2 hole cards / 4 with exactly 2 required) plus direct (hole, board) draws through the engine's own publication path, biased to reach rare categories; own enumeration of admissible selections with an independent evaluator: reported cards are an admissible 5-set of the player's own cards, nothing admissible ranks higher, reported type = category of those cards, reported power = the evaluator's score of those cards. Non-trivial = distinct (hole, board, rule) evaluated" + engineWorkloadNote + "",
 		Required:    req,
 		Assumptions: []string{"selections that are A-6-7-8-9 in the short deck are left out of the comparison", "that the published strength is the one the showdown compares is closed by C02's real-play oracle (expected winners come from the independent evaluator)"},
 	})
